@@ -303,6 +303,19 @@ func (dm *DMap) putOnCluster(e *env) error {
 		return err
 	}
 
+	if e.putConfig.OnlyUpdateTTL {
+		// Expire replicates the complete entry to the backup owners. Keep the current
+		// value, otherwise the backups would store an empty one.
+		current, gerr := f.storage.Get(e.hkey)
+		if errors.Is(gerr, storage.ErrKeyNotFound) {
+			return ErrKeyNotFound
+		}
+		if gerr != nil {
+			return gerr
+		}
+		e.value = current.Value()
+	}
+
 	if dm.config != nil {
 		if dm.config.ttlDuration.Seconds() != 0 && e.timeout.Seconds() == 0 {
 			e.timeout = dm.config.ttlDuration
